@@ -119,6 +119,17 @@ class Cx:
         return names[0]
 
 
+def contract_binding_failure(e):
+    """an IndexError / KeyError / ... raised INSIDE a sidecar contract (contracts/*.py) while it looks for the variables it speaks about
+    (the list that is the memo, the loop that is the driver, ...) means the code no longer has the shape the contract binds to: a role
+    failure (undecided, bounded stand-in), not a fault of the engine.  Anything raised elsewhere stays a crash."""
+    import traceback
+    if not isinstance(e, (IndexError, KeyError, StopIteration, AttributeError, ValueError, TypeError, AssertionError)):
+        return False
+    tb = traceback.extract_tb(e.__traceback__)
+    return bool(tb) and '/contracts/' in tb[-1].filename.replace('\\', '/')
+
+
 class RoleError(Exception):
     pass
 
@@ -559,6 +570,10 @@ def verify_config(contract, cfg, both=False, z3_timeout=None):
         res.error = ('out-of-subset', str(e))
     except RoleError as e:
         res.error = ('role', str(e))
+    except Exception as e:
+        if not contract_binding_failure(e):
+            raise
+        res.error = ('role', f'the contract cannot bind its roles to this code ({type(e).__name__}: {e})')
     if res.error is not None and res.error[0] in ('out-of-subset', 'role') and cx is not None and getattr(cx, 'tree', None) is not None:
         # the unit left the verifier's reach: a BOUNDED native stand-in takes its place (labelled bounded, never counted as proved);
         # a concrete failing behaviour found there is a violation with a replayed input
